@@ -1,12 +1,17 @@
 """C12 - output buffering is bounded: fast producers are paused and always released.
 
-One producing worker and the draining I/O thread on the real server under the
-deterministic scheduler, small watermarks; TLC judges the traces with the
-monitor clauses P12_* (+ wire integrity P04_*) of spec/Pipeline.tla."""
+spec/Channel.tla (write_soon, _flush_outbufs_below_high_watermark with the
+Condition wait/notify, _flush_some_if_lockable, handle_close; output counted in
+bytes) is model-checked for BacklogBounded, ProducerReleased, NoLostWakeup and
+the liveness property ComesToRest.  One producing worker and the draining I/O
+thread of the real server run under the deterministic scheduler with small
+watermarks; their executions are validated step by step against the model and
+TLC judges the observable traces with the monitor clauses P12_* (+ wire
+integrity P04_*) of spec/Pipeline.tla."""
 from checks import chan_common as cc
 from checks import chan_model
 
-LEVEL = "exploration"
+LEVEL = "model_checking"
 
 
 def scenarios(thorough):
@@ -35,6 +40,13 @@ def scenarios(thorough):
         out.append(cc.mk([P(1)], room=30, extra_client=[["readall_after_block", 4 if ov > 1 else 1]],
                          apps={1: {"chunks": sizes, "cl": "none"}}, adj={"outbuf_high_watermark": 1000, "outbuf_overflow": ov},
                          name="outbuf_overflow=%d sizes=%s, spill while partly sent" % (ov, sizes)))
+    # a send error (not a disconnect) while the producer is above the mark: the producer waits for the I/O thread
+    # to tear the connection down and is then released with its request aborted
+    import errno
+    for nth in (2, 3):
+        out.append(cc.mk([P(1)], room=10, extra_client=[["read_after_block", 2, 5]], drains=False,
+                         faults={"send": [None] * nth + [errno.EHOSTUNREACH] * 6}, apps={1: {"chunks": [40, 40, 40, 40, 40], "cl": "none"}},
+                         adj={"outbuf_high_watermark": 30}, name="producer above the mark, send#%d.. fail EHOSTUNREACH" % (nth + 1)))
     out.append(cc.mk([P(1), P(2)], lookahead=1, workers=2, room=20, extra_client=[["read", 40], ["readall"]],
                      apps={1: {"chunks": [40, 40]}, 2: {"chunks": [40]}}, adj={"outbuf_high_watermark": 30}, name="two pipelined producers hwm=30"))
     out.append(cc.mk([P(1)], room=0, extra_client=[["readall_after_block", 1]], apps={1: {"chunks": [200, 200], "write": True, "cl": "none"}},
@@ -44,7 +56,7 @@ def scenarios(thorough):
 
 def run(chk, replay=None):
     scns = scenarios(chk.thorough)
-    chan_model.model_check(chk, "C12")
+    chan_model.model_check(chk, "C12", scns)
     n_pct, dfs = (800, 3000) if chk.thorough else (80, 400)
     cc.explore_and_validate(chk, "C12", scns, n_pct, dfs, bound=2, label="watermark")
     chk.rule = ("cases = schedules of one producing worker + draining I/O thread over %d scenarios (watermark/send_bytes incl. 0 and 1, write sizes below/at/above the mark, "
